@@ -352,7 +352,7 @@ var slack = big.NewRat(1, 1<<30)
 func locate(s isub, k int, t *big.Rat, x, y float64) (int, *big.Rat, bool) {
 	n := len(s.ls)
 	qx, qy := rat(x), rat(y)
-	lim := n
+	lim := n + 1 // closed: go once around, back onto segment k before parameter t
 	if !s.closed {
 		lim = n - k
 	}
